@@ -181,12 +181,15 @@ def findFirstAny (gens : List LGen) (path : String) : Option Entry :=
     | none => none
     | some r => r.entries.head?
 
+/-- one generation's contribution to `find_existing_hash_formats_for_path` -/
+def existingStep (path : String) (acc : List String) (g : LGen) : List String :=
+  match g.gen.find path with
+  | none => acc
+  | some r => r.entries.foldl (fun a e => appendNew a e.fmt) acc
+
 /-- `find_existing_hash_formats_for_path` -/
 def existingFormats (gens : List LGen) (path : String) : List String :=
-  gens.foldl (fun acc g =>
-    match g.gen.find path with
-    | none => acc
-    | some r => r.entries.foldl (fun a e => appendNew a e.fmt) acc) []
+  gens.foldl (existingStep path) []
 
 /-! ## routing -/
 
